@@ -11,7 +11,7 @@ DRIVER = "drv_engine"
 HARNESS_BIN = "engine"
 PARTIAL = [
     "core_exec_justified / core_exec_once / core_rounds_exec_once / core_*_executes_nothing are proved in full for the "
-    "core model (input + normal queries). For firewall / projection / external nodes the justification rule is enforced "
+    "core model (input, normal and external-input queries, unordered groups, refresh). For firewall / projection nodes the justification rule is enforced "
     "by the harness oracle on the implementation and by equality of executor-invocation multisets with the full model.",
 ]
 ASSUMPTIONS = c01.ASSUMPTIONS + ["no cancellation (the property excludes it)"]
